@@ -287,6 +287,10 @@ pub mod verif;
 pub mod verif_conc;
 #[cfg(salsa_rs_salsa_verif)]
 pub mod verif_intern;
+#[cfg(salsa_rs_salsa_verif)]
+pub mod verif_life;
+#[cfg(salsa_rs_salsa_verif)]
+pub use verif_life::verif_take_life_trace;
 mod views;
 mod zalsa;
 mod zalsa_local;
